@@ -252,6 +252,8 @@ class Engine:
         self.assumed = set()
         self.closures = {}
         self.resolved_calls = 0
+        self.called = set()          # qualified names of repository functions analysed in this run
+        self.ext_called = set()      # dotted names of library functions called
         self.opaque_calls = 0
         self.lib_calls = 0
 
@@ -512,6 +514,7 @@ class Engine:
         self.stack.append(key)
         try:
             self.resolved_calls += 1
+            self.called.add(fi.qual)
             if isinstance(fi.node, ast.Lambda):
                 dom = EffDomain(self, nf)
                 ret = dom.ev(fi.node.body, env)
@@ -1023,6 +1026,7 @@ class EffDomain(Domain):
 
     def call_ext(self, dotted, args, kwargs, e, st):
         eng = self.eng
+        eng.ext_called.add(dotted)
         name = dotted.split('.')[-1]
         mod = dotted.split('.')[0]
         a0 = args[0] if args else IMMV
